@@ -277,3 +277,28 @@ def pOutcomeText : P (Outcome String) := do
   else failure
 
 end Jd.Wire
+
+namespace Jd.Wire
+
+/-- number dictionary token `d=<text>:<16hex>,…` (the graph of strconv restricted to the tokens at hand) -/
+def pNumDict : P NumCodec := do
+  let t ← next
+  if !t.startsWith "d=" then failure
+  let body := sdrop t 2
+  let pairs : List (String × UInt64) ←
+    if body == "" then pure []
+    else (body.splitOn ",").mapM (fun it =>
+      match it.splitOn ":" with
+      | [txt, hx] =>
+        match parseHex64 hx with
+        | some b => pure (txt, b)
+        | none => failure
+      | _ => failure)
+  pure { fmt := fun b => (pairs.find? (fun p => p.2 == b)).map (·.1),
+         parse := fun s => (pairs.find? (fun p => p.1 == s)).map (·.2) }
+
+def encOptText : Option String → String
+  | some s => "ok " ++ encText s
+  | none => "unsupported"
+
+end Jd.Wire
